@@ -67,7 +67,7 @@ def run_scenarios(ctx, plan, label, mem_limit=False):
             p = subprocess.run([f"{vlib.LEAN}/.lake/build/bin/driver"], stdin=open(tracef), capture_output=True, text=True, timeout=1800)
             out = p.stdout.split("\n")
             lines = open(tracef).read().split("\n")
-            n_ev = sum(1 for l in lines if l.startswith(("pev ", "bev ")))
+            n_ev = sum(1 for l in lines if l.startswith(("pev ", "bev ", "gev ")))
             events += n_ev
             bad = [j for j, o in enumerate(out[:len(lines)]) if o in ("rejected", "bad-op")]
             kinds = {}
